@@ -35,6 +35,7 @@ Inst == 1..NInst
 PathSeqOf(ps) ==
   CASE ps = "shared"  -> << <<"d", "a">>, <<"d", "b", "c">>, <<"e">> >>            \* shared directory prefix d
     [] ps = "sibling" -> << <<"d", "a">>, <<"d2", "e">> >>                          \* a sibling whose NAME extends the listed one
+    [] ps = "filedir" -> << <<"d", "a">>, <<"d", "a", "x">>, <<"d", "b">> >>             \* a name that is a key and a directory at once
     [] ps = "deep"    -> << <<"d", "a">>, <<"d", "b", "c">>, <<"d", "b", "d">>, <<"e", "f">>, <<"g">> >>
 PathSeq == PathSeqOf(PathSet)
 NP == Len(PathSeq)
